@@ -541,7 +541,192 @@ end Slicec.Gen
     return text, len(keys) + len(loc) + len(span) + len(notef) + 8
 
 
+# ------------------------------------------------------------------------------------------------
+# C06: preprocessor directive keywords (lexer.rs) and grammar productions (grammar.lalrpop)
+# ------------------------------------------------------------------------------------------------
+
+def _lean_str(x):
+    return '"' + x.replace("\\", "\\\\").replace('"', '\\"') + '"'
+
+
+def _lalrpop_symbols(text, T, rel, where):
+    """normalised symbol list of one alternative: bindings and angle brackets removed, groups kept as one symbol"""
+    t = text.replace("<!>", " @ERR@ ")
+    t = re.sub(r"<\s*(?:mut\s+)?[a-z_]\w*\s*:", "<", t)
+    t = t.replace("<", " ").replace(">", " ")
+    toks = re.findall(r'"[^"]*"|\([^()]*\)[*?+]?|@ERR@|[A-Za-z_]\w*[*?+]?', t)
+    if "".join(toks).replace(" ", "") != "".join(t.split()):
+        raise ExtractionError(T, rel, f"{where}: symbols `{' '.join(text.split())}` not understood")
+    out = []
+    for k in toks:
+        if k == "@ERR@":
+            out.append("<!>")
+        elif k.startswith("("):
+            m = re.match(r"\((.*)\)([*?+]?)$", k, re.S)
+            out.append("(" + " ".join(m.group(1).split()) + ")" + m.group(2))
+        else:
+            out.append(k)
+    if not out:
+        raise ExtractionError(T, rel, f"{where}: empty alternative")
+    return out
+
+
+def _split_alternatives(body, T, rel, name):
+    """[(symbols text, action text)] of `{ a => x, b => { … }, c }`"""
+    alts, i, n = [], 0, len(body)
+    while i < n:
+        while i < n and body[i] in " \t\r\n,":
+            i += 1
+        if i >= n:
+            break
+        # symbols run to the next `=>` or `,` at depth 0 (parentheses only occur as groups)
+        depth, j = 0, i
+        while j < n:
+            ch = body[j]
+            if ch == '"':
+                j = body.index('"', j + 1)
+            elif ch == "(":
+                depth += 1
+            elif ch == ")":
+                depth -= 1
+            elif depth == 0 and (body.startswith("=>", j) or ch == ","):
+                break
+            j += 1
+        syms = body[i:j]
+        action = ""
+        if body.startswith("=>", j):
+            k = j + 2
+            while k < n and body[k] in " \t\r\n":
+                k += 1
+            if k < n and body[k] == "{":
+                blk = block_after(body, k)
+                if blk is None:
+                    raise ExtractionError(T, rel, f"{name}: unbalanced action block")
+                action = blk
+                j = k + len(blk) + 2
+            else:
+                depth, e = 0, k
+                while e < n:
+                    ch = body[e]
+                    if ch in "([{":
+                        depth += 1
+                    elif ch in ")]}":
+                        depth -= 1
+                    elif ch == "," and depth == 0:
+                        break
+                    e += 1
+                action = body[k:e]
+                j = e
+        alts.append((syms, action))
+        i = j
+    return alts
+
+
+def gen_preproc_tables(repo):
+    T = "Preproc"
+    # (i) the keyword match of the lexer
+    rel = "slicec/src/parsers/preprocessor/lexer.rs"
+    src = read(repo, rel, T)
+    body = fn_body(src, "lex_next_preprocessor_token", T, rel)
+    m = re.search(r"match\s+identifier\s*", body)
+    if not m:
+        raise ExtractionError(T, rel, "`match identifier` not found in lex_next_preprocessor_token")
+    arms_src = block_after(body, m.end())
+    if arms_src is None:
+        raise ExtractionError(T, rel, "arms of `match identifier` not found")
+    if not re.search(r"let\s+identifier\s*=\s*self\.read_identifier\(\)", body):
+        raise ExtractionError(T, rel, "`let identifier = self.read_identifier()` not found")
+    kws = [(a, d) for a, _, _, d in re.findall(
+        r'"(\w*)"\s*=>\s*Some\(\s*(Ok|Err)\(\s*\(\s*start_location\s*,\s*(TokenKind|ErrorKind)::(\w+)', arms_src)]
+    fb = re.search(r"\b([a-z_]\w*)\s*=>\s*\{[^{}]*?ErrorKind::(\w+)\s*\{\s*keyword", arms_src, re.S)
+    if not fb:
+        raise ExtractionError(T, rel, "fallback arm `keyword => { … ErrorKind::X { keyword … } }` not found")
+    if len(re.findall(r"=>", arms_src)) != len(kws) + 1:
+        raise ExtractionError(T, rel, f"{len(re.findall(r'=>', arms_src))} arms in `match identifier`, {len(kws) + 1} understood")
+    if len(kws) < 1:
+        raise ExtractionError(T, rel, "no directive keyword arms found")
+    fallback = fb.group(2)
+
+    # (ii) terminals and productions of the grammar
+    rel2 = "slicec/src/parsers/preprocessor/grammar.lalrpop"
+    g = read(repo, rel2, T)
+    me = re.search(r"\bextern\s*\{", g)
+    if not me:
+        raise ExtractionError(T, rel2, "`extern {` block not found")
+    ext = block_after(g, me.end() - 1)
+    mt = re.search(r"enum\s+TokenKind[^{]*", ext or "")
+    if not mt:
+        raise ExtractionError(T, rel2, "`enum TokenKind` not found in the extern block")
+    enum_body = block_after(ext, mt.end())
+    terms = re.findall(r'("[^"]*"|[a-z_]\w*)\s*=>\s*TokenKind::(\w+)', enum_body or "")
+    if not terms or len(terms) != len(re.findall(r"=>", enum_body)):
+        raise ExtractionError(T, rel2, "terminal declarations not understood")
+    rest = g[me.end() + len(ext) + 1:]
+    prods = []
+    pos = 0
+    header = re.compile(r"(?:pub\s+)?\b([A-Z]\w*)\s*(?::\s*[^={;]+?)?\s*=(?!>)\s*")
+    while True:
+        mh = header.search(rest, pos)
+        if not mh:
+            break
+        name = mh.group(1)
+        k = mh.end()
+        if k < len(rest) and rest[k] == "{":
+            blk = block_after(rest, k)
+            if blk is None:
+                raise ExtractionError(T, rel2, f"{name}: unbalanced production block")
+            alts = _split_alternatives(blk, T, rel2, name)
+            pos = k + len(blk) + 2
+        else:
+            e = rest.find(";", k)
+            if e < 0:
+                raise ExtractionError(T, rel2, f"{name}: `;` not found")
+            alts = [(rest[k:e], "")]
+            pos = e + 1
+        rows = []
+        for syms, action in alts:
+            ctor = re.search(r"\b([A-Z]\w*::[A-Z]\w*)\b", action)
+            rows.append((_lalrpop_symbols(syms, T, rel2, name), ctor.group(1) if ctor else ""))
+        prods.append((name, rows))
+    if re.sub(r"\s+", "", rest[pos:]):
+        raise ExtractionError(T, rel2, f"text after the last production not understood: {rest[pos:].strip()[:40]}")
+    names = [n for n, _ in prods]
+    for need in ("SliceFile", "Node", "Conditional", "Expression", "Term"):
+        if need not in names:
+            raise ExtractionError(T, rel2, f"production {need} not found")
+
+    def pairs(l):
+        return "[" + ", ".join(f"({_lean_str(a)}, {_lean_str(b)})" for a, b in l) + "]"
+
+    def alt(a):
+        syms, ctor = a
+        return "([" + ", ".join(_lean_str(x) for x in syms) + "], " + _lean_str(ctor) + ")"
+
+    prod_lines = ",\n".join(f"  ({_lean_str(n)}, [" + ", ".join(alt(a) for a in rows) + "])" for n, rows in prods)
+    text = f"""-- GENERATED by translator/extract.py from slicec/src/parsers/preprocessor/{{lexer.rs,grammar.lalrpop}} — do not edit.
+namespace Slicec.Gen
+
+/-- arms of `match identifier {{ "<kw>" => … }}` in `lex_next_preprocessor_token` (the identifier read after `#`):
+    (literal, `TokenKind::X` or `ErrorKind::X` it produces); any other identifier gives `directiveFallback` -/
+def directiveKeywords : List (String × String) := {pairs(kws)}
+def directiveFallback : String := {_lean_str(fallback)}
+
+/-- `extern {{ enum TokenKind {{ terminal => TokenKind::X }} }}` of grammar.lalrpop -/
+def preprocTerminals : List (String × String) := {pairs(terms)}
+
+/-- productions of grammar.lalrpop: (nonterminal, alternatives); an alternative is its symbol list (bindings and
+    angle brackets removed, groups kept as one symbol) and the first `Type::Constructor` path of its action ("" if none) -/
+def preprocGrammar : List (String × List (List String × String)) := [
+{prod_lines}
+]
+
+end Slicec.Gen
+"""
+    return text, len(kws) + 1 + len(terms) + sum(len(r) for _, r in prods)
+
+
 TABLES = {
+    "Preproc": gen_preproc_tables,
     "EmitFormat": gen_emit_format,
     "PluginSpec": gen_plugin_spec,
     "VarintArms": gen_varint_arms,
